@@ -16,6 +16,8 @@ use std::sync::atomic::{AtomicBool, AtomicUsize, Ordering};
 pub const TABLE_BITS: usize = 18;
 pub const TABLE_SIZE: usize = 1 << TABLE_BITS;
 pub const LOG_SIZE: usize = 4096;
+pub const QUARANTINE_SIZE: usize = 1 << 16;
+pub const POISON: u8 = 0xDD;
 
 #[derive(Copy, Clone, Debug, PartialEq, Eq)]
 pub struct Block {
@@ -54,6 +56,7 @@ struct Shared {
     table: UnsafeCell<[Block; TABLE_SIZE]>,
     log: UnsafeCell<[Event; LOG_SIZE]>,
     first_error: UnsafeCell<Option<(AllocError, Block, Block)>>,
+    quarantine: UnsafeCell<[(usize, usize); QUARANTINE_SIZE]>,
 }
 
 unsafe impl Sync for Shared {}
@@ -62,6 +65,7 @@ static SHARED: Shared = Shared {
     table: UnsafeCell::new([EMPTY; TABLE_SIZE]),
     log: UnsafeCell::new([Event { kind: Kind::Alloc, blk: EMPTY }; LOG_SIZE]),
     first_error: UnsafeCell::new(None),
+    quarantine: UnsafeCell::new([(0, 0); QUARANTINE_SIZE]),
 };
 
 static LOCK: AtomicBool = AtomicBool::new(false);
@@ -72,6 +76,8 @@ static LIVE_BYTES: AtomicUsize = AtomicUsize::new(0);
 static ERRORS: AtomicUsize = AtomicUsize::new(0);
 static TOTAL_ALLOCS: AtomicUsize = AtomicUsize::new(0);
 static TOTAL_DEALLOCS: AtomicUsize = AtomicUsize::new(0);
+static QUARANTINE_ON: AtomicBool = AtomicBool::new(false);
+static QUARANTINE_LEN: AtomicUsize = AtomicUsize::new(0);
 
 thread_local! {
     // const-initialised, no destructor: usable from the allocator at any point of a thread's life
@@ -244,6 +250,17 @@ unsafe impl GlobalAlloc for LogAlloc {
                 TOTAL_DEALLOCS.fetch_add(1, Ordering::Relaxed);
                 // free with the layout the block was really allocated with, so that a wrong layout
                 // passed by the code under test is REPORTED instead of corrupting the heap
+                if QUARANTINE_ON.load(Ordering::Relaxed) {
+                    // poison and keep: a later write through a dangling pointer is found by
+                    // `quarantine_scan`, a later read sees 0xDD.. (a wild pointer / absurd counter)
+                    let slot = QUARANTINE_LEN.fetch_add(1, Ordering::Relaxed);
+                    if slot < QUARANTINE_SIZE {
+                        std::ptr::write_bytes(ptr, POISON, have.size);
+                        let _g = Guard::lock();
+                        (*SHARED.quarantine.get())[slot] = (have.ptr, have.size);
+                        return;
+                    }
+                }
                 System.dealloc(ptr, Layout::from_size_align_unchecked(have.size, have.align));
             },
             None => {
@@ -328,6 +345,31 @@ pub fn clear_alloc_errors() {
     unsafe {
         *SHARED.first_error.get() = None;
     }
+}
+
+/// From now on freed blocks are poisoned and never given back to the system.
+pub fn quarantine(on: bool) {
+    QUARANTINE_ON.store(on, Ordering::SeqCst);
+}
+
+/// `(quarantined blocks, blocks whose poison was overwritten after the free)`.
+pub fn quarantine_scan() -> (usize, usize) {
+    let n = QUARANTINE_LEN.load(Ordering::SeqCst).min(QUARANTINE_SIZE);
+    let mut corrupted = 0;
+    for i in 0..n {
+        let (p, size) = {
+            let _g = Guard::lock();
+            unsafe { (*SHARED.quarantine.get())[i] }
+        };
+        if p == 0 {
+            continue;
+        }
+        let bytes = unsafe { std::slice::from_raw_parts(p as *const u8, size) };
+        if bytes.iter().any(|b| *b != POISON) {
+            corrupted += 1;
+        }
+    }
+    (n, corrupted)
 }
 
 // ------------------------------------------------------------------------------------------------
